@@ -42,6 +42,12 @@ package ice
 //@   site call ListenUDP#1 assert explicit-port-or-no-range-uses-the-address-as-is: arg1 == lAddr && (lAddr.Port != 0 || (portMin == 0 && portMax == 0))
 //@   site call ListenUDP#2 assert every-attempt-inside-the-window: arg1.Port == portCurrent && portMin <= portCurrent && portCurrent <= portMax && arg0 == network
 //@   site call ListenUDP#2 assert effective-window: (portMin0 == 0 ==> portMin == 1024) && (portMin0 != 0 ==> portMin == portMin0) && (portMax0 == 0 ==> portMax == 65535) && (portMax0 != 0 ==> portMax == portMax0)
+//@   ghostvar unavail bool = false
+//@   ghostvar failedListen bool = false
+//@   site call ListenUDP#2 ghost failedListen := result1 != nil
+//@   site call IsAddrUnavailable#1 assert C18 judges-the-error-of-this-attempt: failedListen && arg0 == e
+//@   site call IsAddrUnavailable#1 ghost unavail := result
+//@   loop 1 invariant C18 the-walk-goes-on-only-past-errors-that-concern-a-single-port: !unavail
 //@   ensures C09 fresh-open-socket-or-none: (err == nil ==> result0 != nil && result0.payload != nil && result0.gClosed == 0 && !result0.gHeld) && (err != nil ==> result0 == nil)
 //@   ensures inverted-range-is-refused: old(lAddr.Port) == 0 && !(portMin == 0 && portMax == 0) && ite(portMin == 0, 1024, portMin) > ite(portMax == 0, 65535, portMax) ==> result0 == nil && err != nil
 
@@ -193,10 +199,22 @@ package ice
 // is up and passed the loopback setting and the caller's interface filter.
 // ASSUMED: the caller's filter callbacks do not modify agent state.
 //@ noeffect ice.localInterfaces.interfaceFilter, ice.localInterfaces.ipFilter
+//@ spec func isV6nt(nt int) bool = nt == NetworkTypeUDP6 || nt == NetworkTypeTCP6
+//@ spec func isV4nt(nt int) bool = nt == NetworkTypeUDP4 || nt == NetworkTypeTCP4
+//@ func (NetworkType).IsIPv6
+//@   props C18
+//@   pure
+//@   ensures result == isV6nt(t)
+//@ func (NetworkType).IsIPv4
+//@   props C18
+//@   pure
+//@   ensures result == isV4nt(t)
 //@ func localInterfaces
 //@   props C18
 //@   opt nosafety
 //@   modifies nothing
+//@   loop 1 invariant a-family-is-requested-only-by-a-listed-network-type-of-that-family: rangeindex + 1 <= len(networkTypes) && (ipv6Requested ==> exists j int :: 0 <= j && j <= rangeindex && isV6nt(networkTypes[j])) && (ipV4Requested ==> exists j int :: 0 <= j && j <= rangeindex && isV4nt(networkTypes[j]))
+//@   site call Addrs#1 assert with-listed-network-types-a-family-is-scanned-only-if-one-of-them-has-it: len(networkTypes) > 0 ==> (ipv6Requested ==> exists j int :: 0 <= j && j < len(networkTypes) && isV6nt(networkTypes[j])) && (ipV4Requested ==> exists j int :: 0 <= j && j < len(networkTypes) && isV4nt(networkTypes[j]))
 //@   loop 2 invariant results-are-built-in-fresh-memory: fresh(ipAddrs) && fresh(filteredIfaces)
 //@   loop 3 invariant results-are-built-in-fresh-memory: fresh(ipAddrs) && fresh(filteredIfaces)
 //@   loop 2 invariant nothing-else-written: unchangedExcept()
